@@ -36,6 +36,7 @@ Init ==
   /\ res = [i \in 1..Len(ResSpec) |->
               [kind |-> ResKind[ResSpec[i][1]], cap |-> ResSpec[i][2], users |-> <<>>, putq |-> <<>>, getq |-> <<>>,
                level |-> ResSpec[i][3], items |-> <<>>, init |-> ResSpec[i][3]]]
+  /\ ftab = IntTimes
 
 IsResKind(r) == res[r].kind \in {"res", "prio", "preempt"}
 Mine(kinds) == {e \in 1..Len(evs) : evs[e].kind \in kinds /\ evs[e].pr = P}
@@ -71,11 +72,11 @@ ProcOps == (IF procs[P].n < MaxOps THEN OpSpace ELSE {})
                  ELSE {})
 ProcStep == CanAct /\ \E o \in ProcOps : Do(o)
 TopStep == TopCanAct /\ top.n = Len(ResSpec) + NProc /\ Do(Op("steps", 0, 0, 0, Z))
-Next == Pop \/ NextCb \/ EndStep \/ RunDry \/ StepDry \/ Uncaught \/ ProcStep \/ TopStep
+Next == (Pop \/ NextCb \/ EndStep \/ RunDry \/ StepDry \/ Uncaught \/ ProcStep \/ TopStep) /\ UNCHANGED ftab
 Spec == Init /\ [][Next]_kvars
 
 Done == TopCanAct /\ run.p = 0 /\ top.n > Len(ResSpec) + NProc
-Emit == Done => PrintT(<<"EMIT", ToJson([script |-> script, log |-> log])>>)
+Emit == Done => PrintT(<<"EMIT", ToJson([script |-> script, log |-> log, final |-> FinalState])>>)
 
 (* ------------------------------ C06 ------------------------------ *)
 AboutToAdvance == Idle /\ top.mode = "steps" /\ (agenda = {} \/ MinEntry(agenda).t > now)
